@@ -34,6 +34,10 @@ PROPS['C16'] = dict(
           'CATEGORICAL: contains <=> member', 'n<=3 categories, strings <= 2 chars'),
         O('C16.contains_wrong_kind', 'harness.c16_contains', 'contains_wrong_kind', 120, 600,
           'type-incompatible candidates are rejected (False)'),
+        O('C16.contains_wrapped', 'harness.c16_contains', 'contains_wrapped', 200, 600,
+          'membership of a wrapped value (ParameterValue, as in ParameterDict / Trial.parameters) is membership of the value '
+          'it wraps: no casting (a float next to a feasible integer value, a numeric string, a number offered to a boolean '
+          'parameter are not members)', 'all reals / ints, 5 strings', env=_FF0),
         O('C16.factory_bounds', 'harness.c16_validation', 'factory_bounds', 90, 300,
           'bounds definitions: rejected iff non-finite, reversed or mixed int/float; type inferred'),
         O('C16.factory_feasible_numeric2', 'harness.c16_validation', 'factory_feasible_numeric2', 200, None,
@@ -99,7 +103,7 @@ PROPS['C13'] = dict(
     encoded=['GridSearchDesigner.__init__/suggest/dump/load/_maybe_shuffled_grid_values', 'pyvizier.Metadata.ns/__setitem__/__getitem__',
              'ParameterDict', 'TrialSuggestion', 'EagleStrategyDesigner.suggest/update/dump/load (+ serialization, FireflyPool)',
              'NSGA2Designer / CanonicalEvolutionDesigner.suggest/update/dump/load', 'metadata_util.make_key_value_list/'
-             'merge_study_metadata/from_key_value_list'],
+             'merge_study_metadata/from_key_value_list', 'designer_policy.PartiallySerializableDesignerPolicy', 'trial_caches.IdDeduplicatingTrialLoader'],
     bounds='grid: 2-3 parameters, radices 1..3, _current_index any int >= 0 (arithmetic) / 0..12 (dump-load string hop), '
            'batch sizes 1..3, shuffle seeds 0..3',
     outside='CMA-ES; NSGA-II RNG stream after a restart (the property asks for population, phase and counters); eagle/NSGA-II '
@@ -133,6 +137,11 @@ PROPS['C13'] = dict(
           'the same suggestions as the instance kept alive and ends with the same persisted state, also when trials are '
           'reported out of id order and a round late', '2 seeds x batch 3/5 x 4 completion patterns x 6 restart subsets',
           no_validate=True),
+        O('C13.hosted_eagle_restart', 'harness.c13_evolution', 'hosted_eagle_restart', 300, 900,
+          'eagle strategy behind PartiallySerializableDesignerPolicy (designer state AND incorporated-trial cache persisted '
+          'in study metadata): a policy rebuilt before a chosen subset of rounds suggests exactly what a policy kept alive '
+          'suggests, also when early trials complete after later ones', '2 seeds x batch 3/5 x 4 completion patterns x 6 '
+          'restart subsets', no_validate=True),
         O('C13.nsga2_restart', 'harness.c13_evolution', 'nsga2_restart', 300, 900,
           'NSGA-II: fed the same history, the restarted twin has the same population, phase and trial counter as the '
           'instance kept alive, at every round', '2 spaces x 2 seeds x batch 2/3/5 x 4 completion patterns x 6 restart subsets',
@@ -423,6 +432,9 @@ PROPS['C07'] = dict(
           'class on both datastores, nothing stored, nothing left uncommitted'),
         O('C07.update_metadata_other_states', 'harness.c07_equiv', 'update_metadata_other_states', 120, 600,
           'UpdateMetadata on a missing / inactive / completed study', '1 update'),
+        O('C07.many_operations', 'harness.c07_equiv', 'many_operations', 120, 300,
+          'one worker asking 8..13 times (operation numbers cross 9 -> 10): same answers, operations and trials on both back '
+          'ends, every request succeeds', 'n = 8..13, with / without completing in between', no_validate=True),
         O('C07.many_trials', 'harness.c07_equiv', 'many_trials', 90, 300,
           'studies with 8..13 trials: ListTrials order and SuggestTrials (which REQUESTED trial is handed out) agree',
           '8..13 trials alternating REQUESTED/ACTIVE'),
@@ -593,9 +605,10 @@ PROPS['C12']['obligations'] += [
     O('C12.history_s%d' % k, 'harness.c12_service', 'history', None, 1500,
       'real service, policy rebuilt per request: over the whole history every completed trial instance is delivered exactly '
       'once, each update carries exactly the ACTIVE trials of that moment',
-      '3 suggests with up to 4 environment actions (10 kinds incl. deletes, externally added completed trials, second worker); '
-      'first action = #%d' % k, env={'VERIF_SLICE': str(k)}, no_validate=True)
-    for k in range(10)
+      '3 suggests with up to 4 environment actions (12 kinds incl. deletes, externally added completed trials (one or nine '
+      'at once), infeasible without a reason, second worker); first action = #%d' % k, env={'VERIF_SLICE': str(k)},
+      no_validate=True)
+    for k in range(12)
 ]
 PROPS['C12']['outside'] = 'more than 4 trial ids in the one-step obligations; histories longer than 3 suggests / 4 actions'
 
